@@ -4,5 +4,5 @@ f=$1; n=$2
 tmp=$(mktemp -d /tmp/goalXXXX)
 head -n $((n-1)) "$f" > $tmp/G.v
 echo "Show. Abort." >> $tmp/G.v
-( cd /verif/coq && timeout 300 coqc -R . GV -o $tmp/G.vo $tmp/G.v 2>&1 | head -${3:-60} )
+( cd "$(dirname "$0")/../coq" && timeout 300 coqc -R . GV -o $tmp/G.vo $tmp/G.v 2>&1 | head -${3:-60} )
 rm -rf $tmp
